@@ -5,6 +5,7 @@ package merge
 
 import (
 	"bytes"
+	"fmt"
 	"sort"
 
 	"github.com/wrgl/wrgl/pkg/diff"
@@ -61,7 +62,12 @@ func (r *RowResolver) tryResolve(m *Merge) (err error) {
 	layersWhereRowIsRemoved := []int{}
 	for i, sum := range m.Others {
 		if sum != nil {
-			uniqSums[string(sum)] = i
+			key := string(sum)
+			if !r.cd.SameLayoutAsBase(i) {
+				// rows laid out differently can have equal sums and different cells
+				key = fmt.Sprintf("%d/%s", i, key)
+			}
+			uniqSums[key] = i
 		} else {
 			layersWhereRowIsRemoved = append(layersWhereRowIsRemoved, i)
 		}
@@ -159,10 +165,10 @@ func (r *RowResolver) tryResolve(m *Merge) (err error) {
 func (r *RowResolver) Resolve(m *Merge) (err error) {
 	nonNils := 0
 	unchanges := 0
-	for _, sum := range m.Others {
+	for i, sum := range m.Others {
 		if sum != nil {
 			nonNils++
-			if bytes.Equal(sum, m.Base) {
+			if bytes.Equal(sum, m.Base) && r.cd.SameLayoutAsBase(i) {
 				unchanges++
 			}
 		}
